@@ -52,9 +52,9 @@ PROBES = ["remove_first_value", "remove_last_value", "remove_middle_value",
           "two_views_of_the_same_field", "append_on_a_new_line",
           "committed_view_entered_again", "stale_reference_refused", "same_text_assigned_again"]
 
-WSV = ["amd64", "i386", "any", "linux-any", "x", "a1", "#h", "!hurd", "[x]", "ü"]
+WSV = ["amd64", "i386", "any", "linux-any", "x", "a1", "#h", "!hurd", "[x]", "ü", "%s", "{0}"]
 ODD_BLANKS = ["\x0c", "\x85", "\u2028", "\x1c"]      # white space, but not line ends
-CMV = ["libc6", "foo (>= 1.0)", "x y", "bb", "a | b", "#h", "${misc:Depends}", "q", "a b",
+CMV = ["libc6", "foo (>= 1.0)", "x y", "bb", "a | b", "#h", "${misc:Depends}", "q", "a b", "100% {0} \\1",
        "p\x0cq", "nel\x85x"]
 LISTNAMES = ["Depends", "Arch", "Uploaders"]
 OTHER = ["Package", "Section", "X-Foo", "Description"]
